@@ -514,3 +514,15 @@ package adt
 //@   loop 0 invariant -1 <= rangeindex && rangeindex < len(a)
 //@   loop 0 invariant forall i int :: 0 <= i && i <= rangeindex ==> a[i].ignored || a[i].removed || evidenceFor(n, a, i, conjuncts)
 //@   ensures result == (forall i int :: 0 <= i && i < len(a) ==> a[i].ignored || a[i].removed || evidenceFor(n, a, i, conjuncts))
+
+// ---- C02: crash guards ----
+//@ func (*OpContext).uint64
+//@   assumed A-int: converts a non-negative integer value; 0 with an error otherwise
+//@ func (*OpContext).AddErrf
+//@   assumed A-int: records an error in the context
+//@   assigns c.errs
+// (P) C02: the repeat count handed to strings.Repeat / bytes.Repeat is never
+// negative and never exceeds the limit (they panic on a negative count)
+//@ func (*OpContext).repeatCount
+//@   ensures 0 <= result && result <= MaxRepeatCount
+//@   assigns c.errs
